@@ -13,8 +13,9 @@ For a history (sequence of steps  C(codec, numeric_enums) | P (serialise to Pyth
     those bytes, decoded value of the bytes a *fresh* compile produces, decode of fixed strings),
     and again at the end of the history ("late": the object must not change when the dictionary
     is compiled again),
-  * once per module (a `module` line) records the abstraction of the fresh parse and the behaviour
-    maps of compile_string(text, codec, numeric_enums) for all 16 option pairs.
+  * once per module (side file <out>.mods) records the behaviour maps of
+    compile_string(text, codec, numeric_enums) for all 16 option pairs; dictionary abstractions
+    are stored once each, content-addressed, in the side file <out>.snaps.
 
 No verdicts here: Trace_History.tla compares behaviour maps and explains dictionary rewrites.
 JSON for TLC: no null, no floats, ints < 2^31.
@@ -517,14 +518,27 @@ class Fresh(object):
                 self.bytes[(codec, ne)] = own_bytes(b0)
                 self.out[(codec, ne)] = {'st': 'ok', 'msg': '', 'beh': behaviour(spec, modname, codec, ne, self.bytes[(codec, ne)])}
 
-    def line(self, shard):
+    def record(self):
         fresh = []
         for codec in CODECS:
             for ne in (False, True):
                 o = self.out[(codec, ne)]
                 fresh.append({'codec': codec, 'ne': ne, 'st': o['st'], 'msg': o['msg'], 'beh': digest_map(o['beh'])})
-        return {'cid': 'mod-%s-%s' % (self.modname, shard), 'ev': 'module', 'mod': self.modname,
-                'd0': self.d0, 'd0h': dig(self.d0), 'fresh': fresh}
+        return {'mod': self.modname, 'd0h': dig(self.d0), 'fresh': fresh}
+
+
+class Snaps(object):
+    """Content-addressed table of dictionary abstractions (side file <trace>.snaps)."""
+
+    def __init__(self, f):
+        self.f, self.seen = f, set()
+
+    def put(self, snap):
+        h = dig(snap)
+        if h not in self.seen:
+            self.seen.add(h)
+            self.f.write(json.dumps({'h': h, 'd': snap}) + '\n')
+        return h
 
 
 # ----------------------------------------------------------------------------------------
@@ -561,13 +575,13 @@ def pformat_eval(d):
         os.rmdir(tmp)
 
 
-def replay(case, fresh, full=False):
+def replay(case, fresh, snaps, full=False):
     import asn1tools
     modname = case['mod']
     text = MODULES[modname]['text']
     d = asn1tools.parse_string(text)
     snap = abs_dict(d)
-    line = {'cid': case['cid'], 'ev': 'hist', 'mod': modname, 'hist': case['hist'], 'd0h': dig(snap), 'steps': []}
+    line = {'cid': case['cid'], 'ev': 'hist', 'mod': modname, 'hist': case['hist'], 'd0h': snaps.put(snap), 'steps': []}
     objs = []
     for step in case['hist']:
         rec = {'a': step['a'], 'codec': step.get('codec', ''), 'ne': bool(step.get('ne', False)),
@@ -593,9 +607,8 @@ def replay(case, fresh, full=False):
                 rec['st'], rec['msg'], rec['cls'] = st, str(spec), LAST_CLS[0]
         after = abs_dict(d)
         rec['alias'] = after['alias']
-        rec['changed'] = (after != snap)
-        rec['after'] = after if rec['changed'] else []
-        rec['chg'] = changed_paths(snap, after) if rec['changed'] else []
+        rec['after'] = snaps.put(after)
+        rec['chg'] = changed_paths(snap, after) if after != snap else []
         snap = after
         line['steps'].append(rec)
     # every codec object once more, after the whole history
@@ -612,7 +625,7 @@ def explain(path):
         rp = json.load(f)
     case = rp.get('case') or rp
     fresh = Fresh(case['mod'])
-    line = replay({'cid': 'x', 'mod': case['mod'], 'hist': case['hist']}, fresh, full=True)
+    line = replay({'cid': 'x', 'mod': case['mod'], 'hist': case['hist']}, fresh, Snaps(open(os.devnull, 'w')), full=True)
     print(MODULES[case['mod']]['text'])
     for k, s in enumerate(line['steps'], 1):
         print('step %d: %s %s ne=%s -> %s %s' % (k, s['a'], s['codec'], s['ne'], s['st'], s['msg']))
@@ -651,20 +664,24 @@ def main():
                 f.write(json.dumps({'name': name, 'd': abs_dict(asn1tools.parse_string(MODULES[name]['text']))}) + '\n')
         return
     k, n = [int(x) for x in a.shard.split('/')]
-    cases = []
     with open(a.cases) as f:
-        for idx, line in enumerate(f):
-            if line.strip() and idx % n == k:
-                cases.append(json.loads(line))
-    cases.sort(key=lambda c: c['mod'])
+        allc = [json.loads(line) for line in f if line.strip()]
+    # contiguous chunks of the module-sorted list: a shard compiles the references of few modules
+    order = sorted(range(len(allc)), key=lambda i: (allc[i]['mod'], i))
+    lo, hi = (len(order) * k) // n, (len(order) * (k + 1)) // n
+    cases = [allc[i] for i in order[lo:hi]]
+    if not cases:
+        return
     fresh = {}
-    with open(a.out, 'w') as out:
+    with open(a.out, 'w') as out, open(a.out + '.mods', 'w') as fm, open(a.out + '.snaps', 'w') as fs:
+        snaps = Snaps(fs)
         for c in cases:
             if c['mod'] not in fresh:
                 fresh[c['mod']] = Fresh(c['mod'])
-                out.write(json.dumps(fresh[c['mod']].line(k)) + '\n')
+                snaps.put(fresh[c['mod']].d0)
+                fm.write(json.dumps(fresh[c['mod']].record()) + '\n')
             try:
-                line = replay(c, fresh[c['mod']])
+                line = replay(c, fresh[c['mod']], snaps)
             except Exception:
                 line = {'cid': c['cid'], 'ev': 'broken', 'mod': c['mod'], 'hist': c['hist'], 'd0h': '',
                         'steps': [], 'why': traceback.format_exc()[-400:]}
